@@ -76,7 +76,7 @@ MIXED_ELEMS = ["TRUE", "FALSE", "0", "1", "2", "10", "-1", "1.5", "0.5", "'a'", 
 
 ORDER_PROG = ("def prev = NULL; def first = TRUE; def ok = TRUE; def seen = []; "
               "for x in {KW}{C} do if not first then do if not (prev < x) then ok = FALSE end; first = FALSE; prev = x; append(seen, x) end; "
-              "[ok, seen == [y for y in {KW}{C}], {EXTRA}]")
+              "[ok, seen == [y for y in {KW}{C}], {EXTRA}, {MEMB}]")
 
 
 def strict_total(matrix):
@@ -114,7 +114,30 @@ def run_order(spec, ctx):
             coll, kw, extra = "<< " + ", ".join(elems) + " >>", "", "seen == list(<< %s >>)" % ", ".join(elems)
         else:
             coll, kw, extra = "<<< " + ", ".join("%s => %d" % (e, i) for i, e in enumerate(elems)) + " >>>", "keys ", "TRUE"
-        src = ORDER_PROG.replace("{C}", coll).replace("{KW}", kw).replace("{EXTRA}", extra)
+        lst_ = "[" + ", ".join(elems) + "]"
+        memb = "length(seen) == length(unique(%s)) and length([e for e in %s if not (e in seen)]) == 0" % (lst_, lst_)
+        pre_edit = ""
+        if r.random() < 0.5:
+            # the collection is walked and rendered once, then edited in place (members removed and added with no read
+            # in between, often back to the same size), then walked again
+            m = r.randint(0, min(2, n - 1))
+            missing, keep = elems[:m], elems[m:]
+            extras = r.sample(["987001", "'zq1'", "987002", "'Zq3'"], m if (m and r.random() < 0.6) else r.randint(1, 2))
+            init = keep + extras
+            r.shuffle(init)
+            if not kw:
+                pre_edit = "def h = << %s >>; for hx in h do hx end; string(h); [hy for hy in h]; " % ", ".join(init)
+                edits = ["remove(h, %s)" % e for e in extras] + ["append(h, %s)" % e for e in missing]
+                extra = "seen == list(h)"
+            else:
+                pre_edit = "def h = <<< %s >>>; for hx in keys h do hx end; string(h); [hy for hy in keys h]; " % ", ".join(
+                    "%s => %d" % (e if not e[0].isalpha() else "identity(%s)" % e, i) for i, e in enumerate(init))
+                edits = ["remove(h, %s)" % e for e in extras] + [r.choice(["h[%s] = 5", "put(h, %s, 5)"]) % e for e in missing]
+            r.shuffle(edits)
+            pre_edit += "; ".join(edits) + "; "
+            coll = "h"
+            ctx.count("order_programs_after_edits")
+        src = pre_edit + ORDER_PROG.replace("{C}", coll).replace("{KW}", kw).replace("{EXTRA}", extra).replace("{MEMB}", memb)
         # precondition (so that nothing beyond the statement is demanded): on these very elements the language's <
         # must be a strict total order -- mixed kinds fall back to text order, which can be cyclic (10 < date < 3)
         lst = "[" + ", ".join(elems) + "]"
@@ -131,10 +154,10 @@ def run_order(spec, ctx):
             else:
                 ctx.count("order_programs_error")
             continue
-        if real[1] != ("list", (("bool", True), ("bool", True), ("bool", True))):
-            which = ["not-ascending", "comprehension-differs", "list-differs"]
+        if real[1] != ("list", (("bool", True), ("bool", True), ("bool", True), ("bool", True))):
+            which = ["not-ascending", "comprehension-differs", "list-differs", "members-differ"]
             bad = [w for w, v in zip(which, real[1][1]) if v != ("bool", True)]
-            ctx.violation("C04:enumeration-order:%s:%s" % ("map-keys" if kw else "set", "+".join(bad)),
+            ctx.violation("C04:enumeration-order:%s%s:%s" % ("map-keys" if kw else "set", ":after-edits" if pre_edit else "", "+".join(bad)),
                           "%s -> %r" % (src[:700], real[1]), {"src": src})
 
 
@@ -143,7 +166,7 @@ def finalize(merged, tier):
     reasons = []
     if c.get("harness_syntax_errors", 0):
         reasons.append("%d generated programs did not parse (harness defect)" % c["harness_syntax_errors"])
-    for k in ("differential_comparisons", "comprehension_loop_pairs", "log_events", "order_programs"):
+    for k in ("differential_comparisons", "comprehension_loop_pairs", "log_events", "order_programs", "order_programs_after_edits"):
         if c.get(k, 0) == 0:
             reasons.append("monitor counter %s is zero" % k)
     disc = {m: c.get("discriminates_" + m, 0) for m in sorted(set(MODES + COMP_MODES))}
